@@ -198,9 +198,11 @@ def memberOut {τ} (h : Handler τ) (field : Bytes) (v : List UInt8) (hs : τ) :
         | none => .bad
         | some r => .next (h hs field v.toArray).1 r
 
-/-- a well-behaved handler returns (with no error) 0 or the exact length of the value at the head of its input -/
+/-- a well-behaved handler returns (with no error) 0 or the exact length of the value at the head of its input;
+    only inputs whose first byte can start a value matter (the machines call the handler on nothing else) -/
 def WB {τ} (h : Handler τ) : Prop :=
-  ∀ (hs : τ) (field : Bytes) (v : List UInt8), (h hs field v.toArray).2.2 = none →
+  ∀ (hs : τ) (field : Bytes) (v : List UInt8), (∀ b rest, v = b :: rest → isValueStart b = true) →
+    v.length < 4611686018427387904 → (h hs field v.toArray).2.2 = none →
     (h hs field v.toArray).2.1 = 0 ∨
       ∃ r, scanValue none (2 * v.length + 2) 0 v = some r ∧ (h hs field v.toArray).2.1 = ((v.length - r.length : Nat) : Int)
 
@@ -340,7 +342,9 @@ theorem member_run {τ} (k : Kind) (hk : hasLimit k = false) (c : Ctx) (hch : c.
   rw [hsf]
   -- the handler's answer
   generalize hres : h r.hs field (b :: rest).toArray = res at *
-  have hwb' := hwb r.hs field (b :: rest)
+  have hwb' : isValueStart b = true → _ := fun hvs => hwb r.hs field (b :: rest)
+    (by intro b' rest' hh; injection hh with h1 _; subst h1; exact hvs)
+    (by have := hat.le; unfold Small at hsm; omega)
   rw [hres, hsf] at hwb'
   -- what happens after a jump to the last byte of the value
   have jump : ∀ (cb : UInt8) (r' : List UInt8) (n : Nat) (inner : AS) (S : List AS),
@@ -385,7 +389,7 @@ theorem member_run {τ} (k : Kind) (hk : hasLimit k = false) (c : Ctx) (hch : c.
       exact herr_result r res.1 id q
     | none =>
       simp only []
-      rcases hwb' he with hz | ⟨r', hsr, hpp⟩
+      rcases hwb' hvs he with hz | ⟨r', hsr, hpp⟩
       · -- the handler declined: the machine validates the string
         have hx := exec_handler_zero k data h r field _ hargs (by rw [hres]; exact he) (by rw [hres]; exact hz)
         rw [hres] at hx
@@ -446,7 +450,7 @@ theorem member_run {τ} (k : Kind) (hk : hasLimit k = false) (c : Ctx) (hch : c.
       exact herr_result r res.1 id q
     | none =>
       simp only []
-      rcases hwb' he with hz | ⟨r', hsr, hpp⟩
+      rcases hwb' hvs he with hz | ⟨r', hsr, hpp⟩
       · have hx := exec_handler_zero k data h r field _ hargs (by rw [hres]; exact he) (by rw [hres]; exact hz)
         rw [hres] at hx
         have key := (skip_goals k (kind_ne_fast k hk) data h hsm sf).2.1 true rest fuel (p + 1) ⟨c, .after⟩ []
@@ -505,7 +509,7 @@ theorem member_run {τ} (k : Kind) (hk : hasLimit k = false) (c : Ctx) (hch : c.
       exact herr_result r res.1 id q
     | none =>
       simp only []
-      rcases hwb' he with hz | ⟨r', hsr, hpp⟩
+      rcases hwb' hvs he with hz | ⟨r', hsr, hpp⟩
       · have hx := exec_handler_zero k data h r field _ hargs (by rw [hres]; exact he) (by rw [hres]; exact hz)
         rw [hres] at hx
         have key := (skip_goals k (kind_ne_fast k hk) data h hsm sf).2.2 true rest fuel (p + 1) ⟨c, .after⟩ []
